@@ -116,10 +116,9 @@ class FQ:
         return False
 
 
-_fq_cache: dict[int, FQ] = {}
-
-
 def fq(fi: FuncInfo) -> FQ:
-    if id(fi.node) not in _fq_cache:
-        _fq_cache[id(fi.node)] = FQ(fi)
-    return _fq_cache[id(fi.node)]
+    q = getattr(fi.node, '_wc_fq', None)
+    if q is None or q.fi.module != fi.module or q.fi.qualname != fi.qualname:
+        q = FQ(fi)
+        fi.node._wc_fq = q
+    return q
